@@ -626,4 +626,83 @@ Agrees(pre, meta, e, o) ==
     /\ o.w = x.w
     /\ (x.so # 0 => o.so = x.so)
     /\ (WiringDiffers(e) /\ x.err = "" => \A k \in 1..Len(o.lib) : \A nm \in x.w : Get(o.post, nm) # o.lib[k])
+(* ================================================================== helper functions, one call per record *)
+(* cnvlib/core.py: fbase, ensure_path, assert_equal, check_unique; cnvlib/cmdutil.py: write_tsv, write_text.    *)
+(* Records: [op, ...]; judged by Trace_CliUnits (one record = one call of the real function).                   *)
+IsPrefix1(a, b) == Len(a) <= Len(b) /\ SubSeq(b, 1, Len(a)) = a
+KnownExtStem(n) ==          \* <<TRUE, stem>> when the name carries one of the extensions core.fbase lists
+    LET n1 == IF Len(n) > 1 /\ Last1(n) = "gz" THEN Front1(n) ELSE n IN
+    IF Len(n1) >= 3 /\ SubSeq(n1, Len(n1) - 1, Len(n1)) \in TwoPartExts THEN <<TRUE, SubSeq(n1, 1, Len(n1) - 2)>>
+    ELSE IF Len(n1) >= 4 /\ SubSeq(n1, Len(n1) - 2, Len(n1)) = <<"deduplicated", "realign", "bam">> THEN <<TRUE, SubSeq(n1, 1, Len(n1) - 3)>>
+    ELSE <<FALSE, <<>>>>
+AllEqual(s) == \A i \in 1..Len(s) : s[i] = s[1]
+(* ensure_path records: pre/post = [dirs (set as seq), files (seq of <<name, id>>)], path = [d, name]            *)
+UFs(x) == {<<x.files[i][1], x.files[i][2]>> : i \in 1..Len(x.files)}
+UDirs(x) == SetOf(x.dirs)
+UFull(pth) == (IF pth.d = "" THEN "" ELSE pth.d \o "/") \o pth.name
+UClauses(op) ==
+    CASE op = "fbase" -> {"fbase_strips_directory", "fbase_strips_extension", "fbase_known_multipart"}
+      [] op = "assert_equal" -> {"ae_raises_iff_unequal", "ae_message_as_doctest"}
+      [] op = "check_unique" -> {"cu_returns_the_item", "cu_rejects_different_items"}
+      [] op = "write_tsv" -> {"tsv_header_then_rows"}
+      [] op = "write_text" -> {"text_blocks_in_order"}
+      [] op = "ensure_path" -> {"ep_dirs_created", "ep_path_clear", "ep_nothing_lost"}
+      [] OTHER -> {}
+UHolds(c, r) ==
+    CASE c = "fbase_strips_directory" ->
+            (* core.fbase: "Strip directory and all extensions from a filename." *)
+            ~r.has_slash
+      [] c = "fbase_strips_extension" ->
+            (* at least the last extension goes; what is left is the beginning of the base name *)
+            r.err = "" /\ IF Len(r.n) = 1 THEN r.outn = r.n ELSE (IsPrefix1(r.outn, r.n) /\ Len(r.outn) < Len(r.n))
+      [] c = "fbase_known_multipart" ->
+            (* "Gzip extension usually follows another extension"; "Cases to drop more than just the last dot":      *)
+            (* .antitargetcoverage.cnn .targetcoverage.cnn .antitargetcoverage.csv .targetcoverage.csv .recal.bam   *)
+            (* .deduplicated.realign.bam                                                                             *)
+            KnownExtStem(r.n)[1] => r.outn = KnownExtStem(r.n)[2]
+      [] c = "ae_raises_iff_unequal" ->
+            (* core.assert_equal: "Evaluate and compare two or more values for equality." -> ValueError *)
+            IF AllEqual(r.vals) THEN r.err = "" ELSE r.err = "ValueError"
+      [] c = "ae_message_as_doctest" ->
+            (* docstring: assert_equal("Mismatch", expected=1, saw=len(['xx', 'yy']))                      *)
+            (*            ValueError: Mismatch: expected = 1, saw = 2         (keywords in the order given) *)
+            r.err = "ValueError" => r.msgkeys = r.keys
+      [] c = "cu_returns_the_item" ->
+            (* core.check_unique: "Ensure all items in an iterable are identical; return that one item." *)
+            (Len(r.items) > 0 /\ AllEqual(r.items)) => (r.err = "" /\ r.out = r.items[1])
+      [] c = "cu_rejects_different_items" ->
+            (Len(r.items) > 0 /\ ~AllEqual(r.items)) => r.err = "AssertionError"
+      [] c = "tsv_header_then_rows" ->
+            (* cmdutil.write_tsv: "Write rows, with optional column header, to tabular file." *)
+            r.err = "" /\ r.lines = (IF Len(r.colnames) > 0 THEN <<r.colnames>> ELSE <<>>) \o r.rows
+      [] c = "text_blocks_in_order" ->
+            (* cmdutil.write_text: "Write one or more strings (blocks of text) to a file." *)
+            r.err = "" /\ r.content = JoinWith(r.texts, "")
+      [] c = "ep_dirs_created" ->
+            (* core.ensure_path: "Create dirs and move an existing file to avoid overwriting, if necessary." *)
+            r.err = "" /\ r.ret /\ (r.path.d = "" \/ r.path.d \in UDirs(r.post))
+      [] c = "ep_path_clear" ->
+            (* "If a file already exists at the given path, it is renamed with an integer suffix to clear the way." *)
+            r.err = "" /\ ~Exists(UFs(r.post), UFull(r.path))
+      [] c = "ep_nothing_lost" ->
+            r.err = "" /\ \A x \in UFs(r.pre) :
+                \/ (x[1] # UFull(r.path) /\ x \in UFs(r.post))
+                \/ (x[1] = UFull(r.path) /\ \E k \in 1..9 : <<Bak(x[1], k), x[2]>> \in UFs(r.post) /\ ~Exists(UFs(r.pre), Bak(x[1], k)))
+      [] OTHER -> FALSE
+UPremise(r) == r.op \in {"fbase", "assert_equal", "check_unique", "write_tsv", "write_text", "ensure_path"}
+               /\ (r.op = "assert_equal" => Len(r.vals) >= 2)            \* "two or more values"
+(* A-layer of the helpers: the code as written *)
+UDrift(r) ==
+    CASE r.op = "fbase" -> r.outn # FBase(r.n)
+      [] r.op = "assert_equal" ->
+            (* values.popitem() takes the LAST keyword first; the others follow in the order given *)
+            r.err = "ValueError" /\ r.msgkeys # <<Last1(r.keys)>> \o Front1(r.keys)
+      [] r.op = "check_unique" -> (Len(r.items) = 0 /\ r.err # "AssertionError")
+      [] r.op = "ensure_path" ->
+            LET f == UFull(r.path) IN
+            \/ UFs(r.post) # EnsurePath(UFs(r.pre), f)                                  \* first free suffix, counting from 1
+            \/ UDirs(r.post) # UDirs(r.pre) \cup (IF r.path.d = "" THEN {} ELSE SetOf(r.updirs))  \* os.makedirs: every level
+      [] OTHER -> FALSE
+UKnownTriggers == {"AssertEqualMessageOrder"}
+UTriggerHolds(t, r) == t = "AssertEqualMessageOrder" /\ r.op = "assert_equal" /\ r.err = "ValueError" /\ Len(r.keys) >= 2
 =============================================================================
